@@ -1,4 +1,4 @@
-#!/usr/bin/env python3
+#!/venv/bin/python
 """Generate qv/rules/keyed_locals.json: for every rule module, the local-variable spellings of
 repository functions that the module's *matching* strings depend on (strings used in comparisons,
 membership tests and definitions(...) look-ups — not prose).  At run time a violation located in a
@@ -80,6 +80,21 @@ def main():
         json.dump(table, fh, indent=1, sort_keys=True)
         fh.write("\n")
     print({k: sum(len(v) for v in e.values()) for k, e in table.items()})
+    # shapes of every function a rule is keyed on (parents of nested functions), for the alpha-normalisation pre-pass
+    from qv.core.alpha import shape_of, top_functions
+    wanted = {k for e in table.values() for k in e}
+    shapes = {}
+    for mname, m in repo.modules.items():
+        for q, fn in top_functions(m.tree):
+            key = f"{mname}:{q}"
+            if any(w == key or w.startswith(key + ".") for w in wanted):
+                digest, order = shape_of(fn)
+                if order:
+                    shapes[key] = {"digest": digest, "locals": order}
+    with open(os.path.join(rules_dir, "pinned_shapes.json"), "w") as fh:
+        json.dump(shapes, fh, indent=1, sort_keys=True)
+        fh.write("\n")
+    print(f"pinned shapes: {len(shapes)} functions")
 
 
 if __name__ == "__main__":
